@@ -87,6 +87,22 @@ def props_of_error(built, specs_by_key, e):
     return fprops, '%s#safety' % fn
 
 
+def verus_name(key):
+    """'r1cs/verifier.rs::ConstraintSystem<F> for Verifier::multiply' -> 'all::Verifier::multiply' (Verus' name in --time output)"""
+    if not key:
+        return None
+    parts = key.split('::')
+    fn = parts[-1]
+    cont = '::'.join(parts[1:-1])
+    if not cont:
+        return 'all::' + fn
+    if ' for ' in cont:
+        cont = cont.split(' for ')[-1]
+    cont = re.sub(r'^(trait|impl)\s+', '', cont)
+    cont = re.sub(r'<.*$', '', cont).strip()
+    return 'all::%s::%s' % (cont, fn)
+
+
 def scope_of(built, prop):
     keys = []
     for s in built.fnspecs:
@@ -137,7 +153,7 @@ def both_runs(verif, repo, use_cache, extra=()):
     locals the change renamed or shadowed), (2) put those functions under external_body (the change uses a construct
     Verus does not support) — properties that depend on a function of step 2 are then undecided, the others are
     still decided."""
-    args = ['--rlimit', RLIMIT, '--multiple-errors', MULTI, '--num-threads', '8'] + list(extra)
+    args = ['--rlimit', RLIMIT, '--multiple-errors', MULTI, '--num-threads', '16', '-V', 'spinoff-all'] + list(extra)
     degrade, extern = set(), set()
     for rnd in range(4):
         main_b = build.build(repo, verif, canary=False, degrade=degrade, extern=extern)
@@ -159,7 +175,7 @@ def both_runs(verif, repo, use_cache, extra=()):
             continue
         break
     can_b = build.build(repo, verif, canary=True, degrade=degrade, extern=extern)
-    r2 = run.run_verus(verif, can_b, 'canary', ['--rlimit', '20', '--multiple-errors', '2', '--num-threads', '8'], use_cache)
+    r2 = run.run_verus(verif, can_b, 'canary', ['--rlimit', '20', '--multiple-errors', '2', '--num-threads', '16'], use_cache)
     main_b.degraded = degrade
     main_b.externed = extern
     return main_b, can_b, r1, r2
@@ -187,12 +203,12 @@ def write_undecided_evidence(verif, prop, tier, seed, why, wall):
     json.dump(ev, open(os.path.join(verif, 'evidence', prop + '.json'), 'w'), indent=1)
 
 
-def _check(verif, repo, prop, tier, seed, use_cache, write_evidence, t0):
+def _check(verif, repo, prop, tier, seed, use_cache, write_evidence, t0, selftest=False, extra=()):
     manifest = json.load(open(os.path.join(verif, 'MANIFEST.json')))
     claimed = {c['property_id'] for c in manifest['checks']}
     if prop not in claimed:
         raise Undecided('property %s is not claimed in MANIFEST.json (see not_applicable)' % prop)
-    main_b, can_b, r1, r2 = both_runs(verif, repo, use_cache)
+    main_b, can_b, r1, r2 = both_runs(verif, repo, use_cache, extra)
     specs_by_key = {s.key: s for s in main_b.fnspecs}
     scope = scope_of(main_b, prop)
     if not scope:
@@ -250,6 +266,30 @@ def _check(verif, repo, prop, tier, seed, use_cache, write_evidence, t0):
             known_hits.append((name, hit))
         else:
             new[name] = es
+    if selftest:
+        return {'failed': sorted(new.keys()), 'known': [n for n, _ in known_hits], 'fn_ok': r1.get('fn_ok', [])}
+    # ---- a failed obligation is a violation only if NO solver seed discharges it: one accepted run of the verifier
+    #      is a proof (sound), while a single failure may be Z3 giving up (incompleteness / instability) ----
+    rescued = {}
+    if new and not extra:
+        for k in (11, 12):
+            try:
+                rr = _check(verif, repo, prop, 'quick', seed, use_cache, False, time.time(), selftest=True,
+                            extra=('--smt-option', 'smt.random_seed=%d' % k))
+            except Undecided:
+                continue
+            for name in list(new.keys()):
+                fnk = new[name][0].get('fn')
+                vname = verus_name(fnk)
+                oks = [ok for fn, ok in rr['fn_ok'] if fn == vname]
+                whole_fn_ok = bool(oks) and all(oks)
+                if name not in rr['failed'] and not any(x.startswith(name.split('#')[0] + '#') for x in rr['failed']) and whole_fn_ok:
+                    rescued[name] = k
+                    del new[name]
+            if not new:
+                break
+        for name, k in rescued.items():
+            eprint('note: %s failed under the default Z3 seed but is discharged under seed %d (solver instability, not a violation)' % (name, k))
     for name, f in known_hits:
         print('KNOWN-FINDING: property=%s %s (%s at %s)' % (prop, f['what'], name, f['at']))
     wall = time.time() - t0
@@ -286,6 +326,9 @@ def _check(verif, repo, prop, tier, seed, use_cache, write_evidence, t0):
         tail = '' if witness and witness.get('found') else ' no-failing-input-found'
         print('VIOLATION property=%s replay=%s%s' % (prop, rp, tail))
         ev['violations'] = len(new)
+    if tier == 'thorough' and rc == 0:
+        rc = thorough_extras(verif, repo, prop, seed, use_cache, ev, r1)
+    ev['wall_s'] = round(time.time() - t0, 2)
     if write_evidence:
         os.makedirs(os.path.join(verif, 'evidence'), exist_ok=True)
         json.dump(ev, open(os.path.join(verif, 'evidence', prop + '.json'), 'w'), indent=1)
@@ -293,6 +336,82 @@ def _check(verif, repo, prop, tier, seed, use_cache, write_evidence, t0):
         print('OK property=%s tier=%s obligations=%d discharged=%d functions=%d verus_wall=%.1fs(cache:%s) canaries=%d/%d' % (
             prop, tier, len(obligations), len(discharged), len(scope), r1['wall_s'], r1['cache'],
             len([k for k in scope if k in failed_canaries]), len([k for k in scope if fn_has_body.get(k)])))
+    return rc
+
+
+def thorough_extras(verif, repo, prop, seed, use_cache, ev, r1):
+    """thorough tier = the quick proof, plus (a) the same obligations re-discharged under other Z3 seeds (proof
+    stability), (b) a self-test: every seeded property-breaking change kept under seeded/ for this property is applied
+    to a scratch copy of the CURRENT tree and must make a named obligation fail, (c) a bounded directed search through
+    the public API of the real crate (labelled bounded; never counted as proved)."""
+    import shutil
+    import tempfile
+    cov = ev['coverage']
+    rc = 0
+    # (a) seeds
+    stab = []
+    for k in (1, 2):
+        sd = (seed or 0) * 7 + k
+        try:
+            r = _check(verif, repo, prop, 'quick', seed, use_cache, False, time.time(), selftest=True,
+                       extra=('--smt-option', 'smt.random_seed=%d' % sd))
+            stab.append({'z3_random_seed': sd, 'failed_obligations': r['failed']})
+        except Undecided as u:
+            stab.append({'z3_random_seed': sd, 'undecided': str(u)})
+    cov['stability_reruns'] = stab
+    unstable = [x for x in stab if x.get('failed_obligations') or x.get('undecided')]
+    if unstable:
+        eprint('note: obligations of %s not re-discharged under another Z3 seed (proof instability, not a violation): %s' % (prop, unstable))
+    # (b) seeded changes
+    st = []
+    for d in sorted(glob.glob(os.path.join(verif, 'seeded', prop + '*'))):
+        patch = os.path.join(d, 'patch.diff')
+        if not os.path.exists(patch):
+            continue
+        try:
+            meta = json.load(open(os.path.join(d, 'meta.json')))
+        except Exception:
+            meta = {}
+        scratch = tempfile.mkdtemp(prefix='verif-selftest-')
+        try:
+            shutil.copytree(os.path.join(repo, 'src'), os.path.join(scratch, 'src'))
+            for f in ('Cargo.toml', 'Cargo.lock'):
+                if os.path.exists(os.path.join(repo, f)):
+                    shutil.copy(os.path.join(repo, f), scratch)
+            p = subprocess.run(['git', 'apply', '--include=src/*', patch], cwd=scratch, capture_output=True, text=True)
+            if p.returncode != 0:
+                st.append({'change': os.path.basename(d), 'result': 'skipped: patch no longer applies to the current tree'})
+                continue
+            try:
+                r = _check(verif, scratch, prop, 'quick', seed, use_cache, False, time.time(), selftest=True)
+                st.append({'change': os.path.basename(d), 'what': meta.get('summary') or meta.get('what'),
+                           'result': 'caught' if r['failed'] else 'MISSED', 'failed_obligations': r['failed'][:8]})
+            except Undecided as u:
+                st.append({'change': os.path.basename(d), 'result': 'undecided: ' + str(u)})
+        finally:
+            shutil.rmtree(scratch, ignore_errors=True)
+    cov['seeded_change_selftest'] = st
+    for x in st:
+        if x['result'] == 'MISSED':
+            eprint('SELFTEST-MISS property=%s change=%s: the check does not notice this seeded change' % (prop, x['change']))
+    # (c) bounded supplement on the real crate
+    try:
+        from . import witness as wmod
+        if prop in wmod.SEARCHABLE:
+            w = wmod.search(verif, repo, prop, {}, 'thorough')
+            cov['bounded_supplement'] = {'label': 'bounded (directed search through the public API of the real crate; not counted as proved)',
+                                         'explored': w.get('observed'), 'found': w.get('found')}
+            if w.get('found'):
+                os.makedirs(os.path.join(verif, 'replays'), exist_ok=True)
+                rp = os.path.join(verif, 'replays', '%s-%s-bounded.json' % (prop, r1['sha'][:10]))
+                json.dump({'property': prop, 'tree_sha': r1['sha'], 'failed_obligations': [
+                    {'obligation': 'bounded-supplement', 'repo_location': None, 'verus_output': 'all proof obligations were discharged; the bounded search through the public API found a failing input', 'verus_message': ''}],
+                    'witness': w, 'replay_cmd': './check %s --replay %s' % (prop, os.path.relpath(rp, verif))}, open(rp, 'w'), indent=1)
+                print('VIOLATION property=%s replay=%s' % (prop, rp))
+                ev['violations'] = 1
+                rc = 1
+    except Exception as ex:
+        cov['bounded_supplement'] = {'label': 'bounded', 'explored': 'unavailable: %s' % ex, 'found': False}
     return rc
 
 
